@@ -39,6 +39,7 @@ type Solver struct {
 	FallbackMs                       int
 	Time                             time.Duration
 	Errors                           []string
+	NCanceled                        int
 	log                              io.Writer
 	dead                             bool
 }
@@ -252,6 +253,14 @@ func (s *Solver) Check(pc []*Term, extra *Term) SatResult {
 			s.NUnsat++
 			return Unsat
 		case line == "unknown" || line == "timeout":
+			s.NUnknown++
+			return Unknown
+		case strings.Contains(line, "(error") && strings.Contains(line, "canceled"):
+			// the per-command timeout fired inside push/assert (seen under heavy machine load):
+			// a timeout, not an encoding problem. The connection is restarted, the query is
+			// undecided here and goes to the fallback solvers.
+			s.NCanceled++
+			s.dead = true
 			s.NUnknown++
 			return Unknown
 		case strings.Contains(line, "(error"):
